@@ -171,6 +171,11 @@ func c12ChildOpen(in json.RawMessage) (interface{}, error) {
 	var ms0, ms1 runtime.MemStats
 	runtime.ReadMemStats(&ms0)
 	res := &c12OpenResult{}
+	if cs.Op == "writer" {
+		var done func()
+		cs.Dir, done = privateCopy(cs.Dir) // an opening writer may clean up / rewrite: keep the prepared case as made
+		defer done()
+	}
 	cfg := c12Config(cs.Dir, cs.Loader)
 	var rd *bluge.Reader
 	var w *bluge.Writer
